@@ -167,17 +167,33 @@ node_set_bufs(node *n, int sendbuf, int recvbuf)
 	}
 }
 
-// L listens, D dials (one listener + one dialer per link: one pipe per pair)
+// L listens, D dials (one listener + one dialer per link: one pipe per pair).
+// A dialer must never outlive its listener: it would keep redialing a TCP
+// port that another process (another worker of this check) may get next.  So
+// joiners only dial, and all dialers are closed before any socket is.
+static nng_dialer dialers[256];
+static int        ndialers;
+
+static void
+close_dialers(void)
+{
+	for (int i = 0; i < ndialers; i++) (void) nng_dialer_close(dialers[i]);
+	ndialers = 0;
+}
+
 static void
 link_nodes(node *L, node *D, int tran)
 {
 	char         url[128], durl[128];
 	nng_listener l;
+	nng_dialer   d;
 	int          rv;
 	vf_url(tran, url, sizeof(url));
 	if ((rv = nng_listen(L->s, url, &l, 0)) != 0) vf_harness_fail("listen %s: %s", url, nng_strerror(rv));
 	if ((rv = vf_dial_url(l, tran, url, durl, sizeof(durl))) != 0) vf_harness_fail("dial url");
-	if ((rv = nng_dial(D->s, durl, NULL, 0)) != 0) vf_harness_fail("dial %s: %s", durl, nng_strerror(rv));
+	if ((rv = nng_dial(D->s, durl, &d, 0)) != 0) vf_harness_fail("dial %s: %s", durl, nng_strerror(rv));
+	if (ndialers >= 256) vf_harness_fail("too many dialers");
+	dialers[ndialers++] = d;
 	L->degree++;
 	D->degree++;
 }
@@ -616,6 +632,7 @@ analyze(tally *t)
 static void
 close_all(void)
 {
+	close_dialers();
 	for (int i = 0; i < MAXN; i++) {
 		if (N[i].used) stop_receiver(&N[i]);
 	}
@@ -764,7 +781,7 @@ mesh_case(long idx, vf_rng *r)
 				for (int i = 0; i < n; i++) {
 					if (vf_chance(r, 1, 2) || (i == n - 1 && !links)) {
 						int t = pick_tran(r);
-						if (vf_chance(r, 1, 2)) link_nodes(&N[i], j, t); else link_nodes(j, &N[i], t);
+						link_nodes(&N[i], j, t);
 						expect[i][nextid] = expect[nextid][i] = true;
 						links++;
 					}
@@ -1067,6 +1084,7 @@ raw_case(long idx, vf_rng *r)
 	}
 	vf_pt_off();
 	for (int i = 0; i < k; i++) stop_receiver(&N[i]);
+	close_dialers();
 	if (variant == 0) {
 		atomic_store(&fwd_stop, 1);
 		pthread_join(fth, NULL);
